@@ -520,11 +520,26 @@ def strace_log(path, base):
     return ops
 
 
-def build_trace(plan, ops, d0t, d0c, rc, out, ref_keys=None):
+def build_trace(plan, ops, d0t, d0c, rc, out, ref_keys=None, old=None):
     """op list + surviving files -> list of Driver trace events (one per Driver action), or raises ValueError when
-    the observation is not even well-formed (bytes on disk that no logged write explains)."""
-    ev = [{"e": "Reset", "verdict": plan["verdict"], "n": plan["n"], "req": sorted(plan["req"]), "opt": sorted(plan["opt"])}]
+    the observation is not even well-formed (bytes on disk that no logged write explains).
+    old: {'t': bytes, 'c': bytes} = the files of an earlier complete run that were in place on the base name."""
+    ev = [{"e": "Reset", "verdict": plan["verdict"], "n": plan["n"], "req": sorted(plan["req"]), "opt": sorted(plan["opt"]),
+           "old": ["c", "t"] if old else []}]
     d0t, d0c = d0t or b"", d0c or b""
+    still_old = []
+    if old:
+        # a file this run never opened must still hold the earlier run's bytes; the trace then speaks about this run's (empty) output
+        if not any(o[0] == "O" and o[1].endswith(".d0c") for o in ops):
+            if d0c != old["c"]:
+                raise ValueError("the earlier run's companion file changed although this run never opened it")
+            d0c = b""
+            still_old.append("c")
+        if not any(o[0] == "O" and o[1].endswith(".d0t") for o in ops):
+            if d0t != old["t"]:
+                raise ValueError("the earlier run's event file changed although this run never opened it")
+            d0t = b""
+            still_old.append("t")
     pu = parse_units(d0t)
     if pu["malformed"]:
         raise ValueError("malformed event file: " + pu["malformed"])
@@ -647,7 +662,7 @@ def build_trace(plan, ops, d0t, d0c, rc, out, ref_keys=None):
             ev.append({"e": "Refuse", "rc": 0 if rc == 0 else 1, "msg": re.search(r"error", out, re.I) is not None})
         ev += cleanup
     ev.append({"e": "Disk", "t": [[u[0], u[1]] for u in units], "tornT": pu["torn"],
-               "c": [model_key(l[0]) for l in pl["lines"]], "tornC": pl["torn"]})
+               "c": [model_key(l[0]) for l in pl["lines"]], "tornC": pl["torn"], "old": still_old})
     return ev
 
 
@@ -864,6 +879,87 @@ def kill_points(prog, plans_by_sig, tier, ck, vio, wd, only=None):
                    "example": "SIGKILL at write #%d (%d bytes requested) after %s" % (
                        points[len(points) // 2][0], writes[points[len(points) // 2][0] - 1][2],
                        "the whole buffer" if points[len(points) // 2][1] < 0 else "%d bytes" % points[len(points) // 2][1])}, cap=12)
+    return execs
+
+
+# ----------------------------------------------------------------------------- base name used before
+
+def reuse_runs(prog, plans_by_sig, tier, ck, vio, wd, only=None):
+    """An earlier complete run left <base>.d0t / <base>.d0c (with the completion marker).  Whatever the next run on the same
+    base name does - completes, is refused before or after it opened its files, prints its usage, is killed right after
+    one of its opens or one of its first writes - a companion file that carries a completion marker must sit next to the
+    complete event file it speaks about.  Each run is also one execution for TraceDriver (Reset line with old = {t, c})."""
+    b = dict(DEFAULTS)
+    bkgbase = dict(b, cat="background", nuc="bkgP")
+    co60 = dict(bkgbase, seed="7", count=3)
+    scen = [
+        {"name": "complete", "cl": co60, "conc": {"nucname": "Co60"}, "env": {}},
+        {"name": "refused-by-engine", "cl": dict(b, cat="dbd", nuc="Mo100", level=0, mode=10), "conc": {}, "env": {}},
+        {"name": "refused-unknown-nuclide", "cl": dict(b, cat="background", nuc="unk"), "conc": {}, "env": {}},
+        {"name": "refused-unknown-option", "cl": dict(bkgbase, fault="unknown"), "conc": {}, "env": {}},
+        {"name": "usage", "cl": dict(bkgbase, fault="help"), "conc": {}, "env": {}},
+        {"name": "killed-after-open-1", "cl": co60, "conc": {"nucname": "Co60"}, "env": {"KILLW_AT_OPEN": "1"}},
+        {"name": "killed-after-open-2", "cl": co60, "conc": {"nucname": "Co60"}, "env": {"KILLW_AT_OPEN": "2"}},
+        {"name": "killed-at-write-1", "cl": co60, "conc": {"nucname": "Co60"}, "env": {"KILLW_AT": "1", "KILLW_BYTES": "-1"}},
+        {"name": "killed-at-write-2-torn", "cl": co60, "conc": {"nucname": "Co60"}, "env": {"KILLW_AT": "2", "KILLW_BYTES": "5"}},
+    ]
+    if tier == "thorough":
+        for k in range(3, 13):
+            scen.append({"name": "killed-at-write-%d" % k, "cl": co60, "conc": {"nucname": "Co60"}, "env": {"KILLW_AT": str(k), "KILLW_BYTES": "-1"}})
+        scen.append({"name": "refused-inverted-window", "cl": dict(b, cat="dbd", nuc="Mo100", level=0, mode=4, win="inv"), "conc": {}, "env": {}})
+        scen.append({"name": "refused-bad-count", "cl": dict(bkgbase, count=-2), "conc": {}, "env": {}})
+    prev_cl = dict(bkgbase, seed="0", count=1)
+    execs = []
+    for sc in scen:
+        if only and sc["name"] != only.get("scenario"):
+            continue
+        if sig(sc["cl"]) not in plans_by_sig:
+            raise vlib.InfraError("reuse scenario %s is not in the model's grid" % sc["name"])
+        plan = dict(plans_by_sig[sig(sc["cl"])])
+        base = os.path.join(wd, "u-" + sc["name"])
+        argv0, _ = concretise(prev_cl, base, {"nucname": "Co60", "n": 2})
+        rc0, out0 = prog.run(argv0)
+        old = {"t": read(base + ".d0t"), "c": read(base + ".d0c")}
+        if rc0 != 0 or not old["t"] or not status_visible(old["c"] or b""):
+            raise vlib.InfraError("the earlier complete run of reuse scenario %s failed (rc=%s): %s" % (sc["name"], rc0, out0[-300:]))
+        argv, _ = concretise(sc["cl"], base, sc["conc"])
+        log = base + ".log"
+        rc, out = prog.run(argv, dict({"LD_PRELOAD": prog.shim, "KILLW_LOG": log}, **sc["env"]))
+        if rc == 124:
+            raise vlib.InfraError("bxdecay0-run timed out: %s" % argv)
+        ops = shim_log(log)
+        t2, c2 = read(base + ".d0t") or b"", read(base + ".d0c") or b""
+        ck.add("evaluations")
+        ck.add("reuse_scenarios")
+        rep = {"kind": "reuse", "scenario": sc["name"], "argv": [a.replace(wd + "/", "") for a in argv], "env": sc["env"]}
+        key = "reuse:%s" % sc["name"]
+        what = "base name reused after a complete run, next run: %s (rc=%s)" % (sc["name"], rc)
+        if sc["env"] and rc not in (-9, 137):
+            vio.add("kill-infra", key + ":not-killed", "%s: process was not killed" % what, rep)
+            continue
+        # the files by themselves: a marker speaks about the records next to it
+        if status_visible(c2):
+            ck.add("reuse_outcomes_with_marker")
+            kv = {l[0]: l[1] for l in parse_lines(c2)["lines"]}
+            pu = parse_units(t2)
+            ids = record_ids(pu) if not pu["malformed"] else None
+            try:
+                nb = int(kv.get("nb-events", "-1"))
+            except ValueError:
+                nb = -1
+            if ids is None or pu["torn"] or ids != list(range(nb)):
+                vio.add("reuse-status", key + ":stale-marker",
+                        "%s: the companion file carries a completion marker (nb-events=%s) next to an event file with %s"
+                        % (what, kv.get("nb-events"), "malformed content" if ids is None else "%d complete records%s" % (len(ids), " and a partial one" if pu["torn"] else "")), rep)
+        else:
+            ck.add("reuse_outcomes_without_marker")
+        try:
+            execs.append({"events": build_trace(plan, ops, t2, c2, rc, out, None, old=old), "key": key, "what": what, "replay": rep})
+        except ValueError as e:
+            vio.add("observation", key + ":observation", "%s: %s" % (what, e), rep)
+        for p_ in (base + ".d0t", base + ".d0c", log):
+            if os.path.exists(p_):
+                os.remove(p_)
     return execs
 
 
@@ -1109,6 +1205,10 @@ def run(tier, replay):
     if not only or only.get("kind") == "kill":
         execs += kill_points(prog, plans_by_sig, tier, ck, vio, wd, only)
 
+    # ---- 3b. the base name was used before
+    if not only or only.get("kind") == "reuse":
+        execs += reuse_runs(prog, plans_by_sig, tier, ck, vio, wd, only)
+
     # ---- 4. syscall order of uninterrupted runs (strace)
     if not only or only.get("kind") == "strace":
         if only:
@@ -1154,6 +1254,7 @@ def run(tier, replay):
         "CmdLine.tla's double-beta table (Mo100, Cd106, Xe136) is the reference admission rule set of C06; other published names are covered by the catalogue sweep only",
         "harness/driver_oracle.cc is 'the library API for the same seed and settings': std::default_random_engine(seed) behind std_random, exponential decay time drawn from the same engine after each shoot when an activity is given",
         "kill points are the program's write(2) calls on its two files (a SIGKILL between two writes leaves the same files as one after the earlier write); the files live on a local file system without reordering of appended bytes",
+        "kill points after each open of the two files are taken with an earlier complete run in place on the base name (reuse scenarios)",
         "internal actions (Parse, InitGen, Header, WriteEvent, WriteStatus) have no system call: the trace places them immediately before the first write that carries their output",
         "a refusal counts as detectable with a non-zero status OR an error message; parse errors exit with status 0 (counted in refusals_with_exit_status_0)",
         "gA tables %s" % ("mounted: mode 21 command lines skipped" if ga else "not mounted: modes 21..24 must be refused"),
